@@ -124,6 +124,34 @@ func checkC18(c C18Case, rec *obs.Recorder) *obs.Violation {
 	}
 
 	// saving is refused once the authorizer has been evaluated
+	// a long-lived authorizer that serves one request per snapshot: another snapshot (other strings)
+	// loaded and evaluated first, Reset, then this one
+	other := m.Authz{Facts: []m.Pred{m.P("c18_other", m.Str("c18_first"), m.Str("c18_second"))}, Policies: c.Authz.Policies}
+	if src2, err := newAuthz(b1, pub, other); err == nil {
+		if snap2, err := src2.SerializePolicies(); err == nil {
+			again, err := newAuthz(b2, pub, m.Authz{})
+			if err != nil {
+				return obs.Violf("T2 does not verify: %v", err)
+			}
+			if lerr, pan := loadSafely(again, snap2); pan != nil || lerr != nil {
+				return obs.Violf("%s: LoadPolicies of a library-made snapshot failed: %v %v", desc, lerr, pan)
+			}
+			_ = bridge.Authorize(again)
+			again.Reset()
+			if lerr, pan := loadSafely(again, snap); pan != nil || lerr != nil {
+				return obs.Violf("%s: LoadPolicies after Reset failed: %v %v", desc, lerr, pan)
+			}
+			if o3 := bridge.Authorize(again); o3.String() != o2.String() {
+				return obs.ViolK("load-after-reset", "%s: loaded into an authorizer that had served another snapshot and was Reset, the outcome is %s (%s); loaded into a new authorizer it is %s", desc, o3, o3.Err, o2)
+			}
+			for _, q := range c.Queries {
+				if k1, k2 := queryKey(again, q), queryKey(direct, q); k1 != k2 {
+					return obs.ViolK("load-after-reset", "%s: query %s on an authorizer that had served another snapshot and was Reset: {%s}; on a new one: {%s}", desc, q.Text(), k1, k2)
+				}
+			}
+		}
+	}
+
 	// ... and having been saved does not change the original: it still behaves like an authorizer
 	// with the same content that was never saved
 	twin, err := newAuthz(b1, pub, c.Authz)
@@ -292,7 +320,7 @@ func drawC18(t *rapid.T) C18Case {
 func TestC18(t *testing.T) {
 	rec := obs.New("C18")
 	defer rec.Flush(true)
-	rec.SetExtra("rule", "rapid: goal-directed authorizer content (all term types with non-empty sets, default and fresh symbols, 0-3 checks, 0-4 ordered policies of both kinds), token T1 with its own symbols where the snapshot is taken, token T2 (reloaded from bytes) where it is loaded, a panel of 3 queries, and one malformed snapshot (random bytes, bit flip, truncation, empty, version absent/2/4, policy without or with unknown kind, set of variables, operator without kind, term without content, out-of-range indexes; written with the independent writer). Oracle: the snapshot decodes independently to the right number of elements; fresh authorizer for T2 + LoadPolicies has the same Authorize class and panel answers as fresh authorizer for T2 + the content added directly; the authorizer that was saved, evaluated afterwards, gives the same outcome and panel answers as a never-saved twin; SerializePolicies fails after Authorize or Query, and still fails after the evaluated authorizer has loaded its own snapshot; LoadPolicies on malformed bytes returns an error (where the bytes are certainly malformed) and never panics, nor does a later Authorize. Non-trivial = a fresh symbol, >= 1 check, >= 2 policies and an outcome other than no-matching-policy; distinct by (T1, T2, content).")
+	rec.SetExtra("rule", "rapid: goal-directed authorizer content (all term types with non-empty sets, default and fresh symbols, 0-3 checks, 0-4 ordered policies of both kinds), token T1 with its own symbols where the snapshot is taken, token T2 (reloaded from bytes) where it is loaded, a panel of 3 queries, and one malformed snapshot (random bytes, bit flip, truncation, empty, version absent/2/4, policy without or with unknown kind, set of variables, operator without kind, term without content, out-of-range indexes; written with the independent writer). Oracle: the snapshot decodes independently to the right number of elements; fresh authorizer for T2 + LoadPolicies has the same Authorize class and panel answers as fresh authorizer for T2 + the content added directly; the same holds for an authorizer that first served another snapshot (other strings) and was Reset; the authorizer that was saved, evaluated afterwards, gives the same outcome and panel answers as a never-saved twin; SerializePolicies fails after Authorize or Query, and still fails after the evaluated authorizer has loaded its own snapshot; LoadPolicies on malformed bytes returns an error (where the bytes are certainly malformed) and never panics, nor does a later Authorize. Non-trivial = a fresh symbol, >= 1 check, >= 2 policies and an outcome other than no-matching-policy; distinct by (T1, T2, content).")
 	rec.SetExtra("assumptions", []string{"non-empty sets only: empty sets are refused by the encoder by design"})
 	harness.RunWith(t, harness.Spec[C18Case]{ID: "C18", Draw: drawC18, Check: checkC18}, rec)
 }
